@@ -190,6 +190,12 @@ type UDPRelay struct {
 	blackhole int32
 	Packets   int64
 	closed    int32
+	// Drop, if set, is asked for every datagram (direction c2s or s2c, running number in that direction)
+	// whether to drop it. It must be set before traffic starts.
+	Drop    func(c2s bool, n int64) bool
+	nC2S    int64
+	nS2C    int64
+	Dropped int64
 }
 
 func NewUDPRelay(server string) (*UDPRelay, error) {
@@ -230,6 +236,10 @@ func (r *UDPRelay) loop() {
 			go r.back(up, from)
 		}
 		r.mu.Unlock()
+		if r.Drop != nil && r.Drop(true, atomic.AddInt64(&r.nC2S, 1)) {
+			atomic.AddInt64(&r.Dropped, 1)
+			continue
+		}
 		if atomic.LoadInt32(&r.blackhole) == 0 {
 			up.Write(pkt)
 		}
@@ -249,6 +259,10 @@ func (r *UDPRelay) back(up *net.UDPConn, to net.Addr) {
 			r.S2C = append(r.S2C, pkt)
 		}
 		r.mu.Unlock()
+		if r.Drop != nil && r.Drop(false, atomic.AddInt64(&r.nS2C, 1)) {
+			atomic.AddInt64(&r.Dropped, 1)
+			continue
+		}
 		if atomic.LoadInt32(&r.blackhole) == 0 {
 			r.pc.WriteTo(pkt, to)
 		}
